@@ -62,6 +62,9 @@ PROGRAMS = [
     ("deep recursion with big frames", "fun f(n: Int, acc) { f(n + 1, [acc, acc]) }\nf(0, [])"),
     ("blocking read_line", "let l = read_line()\nprintln(\"got\")"),
     ("sleeping busy loop with map", "let xs = range(0, 200)\nwhile True { xs.map(fun(v) { v + 1 }) }"),
+    # billions of steps without a single call or while iteration: loops over a list, nested
+    ("nested for loops without calls", "let xs = []\nlet i = 0\nwhile i < 300 { xs = xs.append(i) i += 1 }\nlet n = 0\nfor a in xs { for b in xs { for c in xs { for d in xs { n += 1 } } } }\nprintln(string_repr(n))"),
+    ("nested for loops with a match and an if", "let xs = []\nlet i = 0\nwhile i < 300 { xs = xs.append(Some(i)) i += 1 }\nlet n = 0\nfor a in xs { for b in xs { for c in xs { for d in xs { match d { Some(v) => { if v > 5 { n += 1 } } None => {} } } } } }\nprintln(string_repr(n))"),
     ("terminating control", "let i = 0\nwhile i < 10 { i += 1 }\nprintln(string_repr(i))"),
     ("erroring control", "let z = 1 / 0"),
 ]
